@@ -248,3 +248,122 @@ oracle.oracle_c11 = oracle_c11
 oracle.oracle_c16 = oracle_c16
 oracle.oracle_c09 = oracle_c09
 oracle.oracle_c14_accept = oracle_c14_accept
+
+
+# ------------------------------------------------------------------ C12
+_PL_OF = {"int64": "Int64", "int32": "Int32", "int16": "Int16", "int8": "Int8", "uint64": "UInt64", "uint32": "UInt32", "uint16": "UInt16",
+          "uint8": "UInt8", "float64": "Float64", "float32": "Float32", "bool": "Boolean", "string": "String", "date": "Date", "null": "Null"}
+_INTS = {"Int64", "Int32", "Int16", "Int8", "UInt64", "UInt32", "UInt16", "UInt8"}
+_FLOATS = {"Float64", "Float32"}
+
+
+def _static_ok(static: str, exported: str, exact: bool, all_null: bool) -> bool:
+    """is the exported polars dtype what the static dtype predicts?  `exact`: Polars backend (concrete
+    types must be equal); otherwise up to the numeric family.  Only all-null columns may be Null-typed."""
+    st = static[len("const "):] if static.startswith("const ") else static
+    if exported == "Null":
+        return all_null
+    if st == "null":
+        return all_null            # a null-typed expression exports a Null (or all-null) column
+    if st == "int":
+        return exported in _INTS
+    if st == "float":
+        return exported in _FLOATS or exported.startswith("Decimal")
+    if st.startswith("string"):
+        return exported == "String"
+    if st.startswith("datetime"):
+        return exported.startswith("Datetime")
+    if st.startswith("decimal"):
+        return exported.startswith("Decimal") or (not exact and exported in _FLOATS)
+    want = _PL_OF.get(st)
+    if want is None:
+        return True                # types outside the generated domain (duration, time, list, enum)
+    if exact:
+        return exported == want
+    if want in _INTS:
+        return exported in _INTS
+    if want in _FLOATS:
+        return exported in _FLOATS
+    return exported == want
+
+
+def oracle_c12(program, po, so):
+    """static dtype of every visible column vs the exported schema (Polars exactly, SQL up to the numeric
+    family); re-import of the exported frame and collect() reproduce the static types"""
+    import pydiverse.transform as pdt
+
+    from . import realtypes
+
+    diffs = oracle.diff_c01(program, po, so)
+    for be, obs in (("polars", po), ("sqlite", so)):
+        by = {o["id"]: o for o in obs}
+        for st in program["stmts"]:
+            if st["op"] != "export":
+                continue
+            o = by.get(st["id"])
+            src = by.get(st["src"])
+            if o is None or o["outcome"] != "ok" or src is None or src.get("cache") is None or not o["frame"].get("dtypes"):
+                continue
+            cache = src["cache"]
+            dt_of = {c[0]: c[2] for c in cache["cols"]}
+            names = [n for n, _ in cache["visible"]]
+            if names != o["frame"]["names"]:
+                continue           # C11's business
+            for j, (n, u) in enumerate(cache["visible"]):
+                static = dt_of.get(u)
+                if static is None:
+                    continue
+                exported = o["frame"]["dtypes"][j]
+                all_null = all(r[j] is None for r in o["frame"]["rows"])
+                if not _static_ok(static, exported, be == "polars", all_null):
+                    diffs.append(dict(kind="dtype_mismatch", stmt=st["id"], op="export", backend=be, exc=None,
+                                      detail=f"column {n!r}: static {static} but exported {exported}", dclass=f"{static.split('(')[0]}->{exported.split('(')[0]}"))
+    # round trips on the real objects
+    warnings.simplefilter("ignore")
+    for be in ("polars", "sqlite"):
+        obs = po if be == "polars" else so
+        env = _rebuild(program, be)
+        for st in program["stmts"]:
+            if st["op"] != "export" or st["src"] not in env.tables:
+                continue
+            o = next((x for x in obs if x["id"] == st["id"]), None)
+            if o is None or o["outcome"] != "ok":
+                continue
+            t = env.tables[st["src"]]
+            try:
+                df = t >> pdt.export(pdt.Polars())
+                static = [realtypes.dt_text(pdt_types_without_const(c.dtype())) for c in t]
+                t2 = pdt.Table(df)
+                re_types = [realtypes.dt_text(c.dtype()) for c in t2]
+                again = (t2 >> pdt.export(pdt.Polars()))
+                if [str(x) for x in again.dtypes] != [str(x) for x in df.dtypes]:
+                    diffs.append(dict(kind="reimport_schema_changes", stmt=st["id"], op="export", backend=be, exc=None,
+                                      detail=f"{[str(x) for x in df.dtypes]} -> {[str(x) for x in again.dtypes]}"))
+                for n, s0, s1, x in zip(df.columns, static, re_types, df.dtypes):
+                    # the re-imported table's static type is the concrete type of the exported column
+                    if not _static_ok(s1, str(x), True, df[n].null_count() == len(df)):
+                        diffs.append(dict(kind="reimport_dtype", stmt=st["id"], op="export", backend=be, exc=None,
+                                          detail=f"column {n!r}: exported {x}, re-imported static {s1} (was {s0})"))
+                if be == "polars":
+                    t3 = t >> pdt.collect()
+                    c_types = [realtypes.dt_text(pdt_types_without_const(c.dtype())) for c in t3]
+                    df3 = t3 >> pdt.export(pdt.Polars())
+                    if [str(x) for x in df3.dtypes] != [str(x) for x in df.dtypes]:
+                        diffs.append(dict(kind="collect_schema_changes", stmt=st["id"], op="export", backend=be, exc=None,
+                                          detail=f"{[str(x) for x in df.dtypes]} -> {[str(x) for x in df3.dtypes]}"))
+                    for n, s3, x in zip(df3.columns, c_types, df3.dtypes):
+                        if not _static_ok(s3, str(x), True, df3[n].null_count() == len(df3)):
+                            diffs.append(dict(kind="collect_dtype", stmt=st["id"], op="export", backend=be, exc=None,
+                                              detail=f"column {n!r}: collected static {s3}, exported {x}"))
+            except Exception as e:  # noqa: BLE001
+                diffs.append(dict(kind="roundtrip_error", stmt=st["id"], op="export", backend=be, exc=type(e).__name__, detail=str(e)[:200]))
+    return diffs
+
+
+def pdt_types_without_const(t):
+    from pydiverse.transform._internal.tree import types
+
+    return types.without_const(t)
+
+
+oracle.oracle_c12 = oracle_c12
